@@ -51,6 +51,16 @@ func c07Receivers() []recvKind {
 		{"struct-local-type-2", tvUnexp("R2", tvInt("int", "1"), tvInt("int", "2"), tvStr("w"))},
 		{"nil-pointer", tvNilPtr(tvInt("int", "0"))},
 		{"pointer", tvPtr(tvInt("int", "5"))},
+		{"nil-pointer-to-bool", tvNilPtr(tvBool(false))},
+		{"nil-pointer-to-string", tvNilPtr(tvStr(""))},
+		{"nil-pointer-to-float", tvNilPtr(tvF64(0))},
+		{"nil-pointer-to-struct", tvNilPtr(tvStruct([][3]any{{"A", 1, tvInt("int", "1")}}))},
+		{"nil-pointer-to-slice", tvNilPtr(tvSlice(1))},
+		{"nil-pointer-to-map", tvNilPtr(tvMap("str", nil))},
+		{"pointer-to-bool", tvPtr(tvBool(true))},
+		{"pointer-to-pointer", tvPtr(tvPtr(tvBool(true)))},
+		{"pointer-to-nil-pointer", tvPtr(tvNilPtr(tvBool(true)))},
+		{"map-with-nan-key", tvMap("iface", [][2]any{{"~f64:7ff8000000000001", tvF64(1)}, {"~f64:4000000000000000", tvF64(3)}, {hx("a"), tvF64(2)}})},
 		{"func", &TV{T: "func"}},
 		{"chan", &TV{T: "chan"}},
 		{"nan", tvF64(nan())},
@@ -74,7 +84,7 @@ func init() {
 }
 
 func genC07(c *Ctx) {
-	c.Rule = "exhaustive: every function of ListFunctions() x 30 receiver kinds x argument tuples (all of length 0..2 in quick, 0..3 in thorough, over 10 argument kinds (incl. a string that is not a valid regular expression)), receiver under a key and at the root; then random composite queries on random data. distinct = distinct (query skeleton, data shape to depth 2, outcome class); non-trivial = outcome class is not the most common one"
+	c.Rule = "exhaustive: every function of ListFunctions() x 40 receiver kinds x argument tuples (all of length 0..2 in quick, 0..3 in thorough, over 10 argument kinds (incl. a string that is not a valid regular expression)), receiver under a key and at the root; every function x 5 receivers x 12 whole numbers around 2^31, 2^32, 2^63, 2^64 as literal, as a path to a uint64 / decimal and twice; then random composite queries on random data. distinct = distinct (query skeleton, data shape to depth 2, outcome class); non-trivial = outcome class is not the most common one"
 	names := funcNames()
 	recvs := c07Receivers()
 	var tuples [][]string
@@ -111,6 +121,33 @@ func genC07(c *Ctx) {
 				}
 				q := "$." + fn + "(" + strings.Join(tp, ",") + ")"
 				c.Do(Case{Q: q, D: rk.tv, Cls: "root/" + rk.name, InDomain: true})
+			}
+		}
+	}
+	// huge counts and indexes that are whole numbers around 2^31, 2^32, 2^63 and 2^64 (a conversion to a machine integer wraps or
+	// saturates there), as literals and through a path to an unsigned number
+	{
+		huge := []string{"2147483647", "2147483648", "4294967296", "9223372036854775807", "9223372036854775808", "1e19", "1.5e19", "18446744073709551615", "18446744073709551616", "3e19", "-9223372036854775808", "-9223372036854775809"}
+		recvsH := []struct {
+			name string
+			tv   *TV
+		}{{"string", tvStr("hello")}, {"empty-string", tvStr("")}, {"array", tvSlice(1, tvF64(1), tvF64(2), tvStr("x"))}, {"number", tvF64(2.5)}, {"object", tvMap("str", [][2]any{{hx("a"), tvF64(1)}})}}
+		for _, fn := range names {
+			for _, rk := range recvsH {
+				for hi, h := range huge {
+					var n *TV
+					if strings.HasPrefix(h, "-") || strings.ContainsAny(h, "e.") || len(h) > 19 && h > "18446744073709551615" {
+						n = tvDec(decimal.RequireFromString(h))
+					} else {
+						n = tvInt("uint64", h)
+					}
+					d := tvMap("str", [][2]any{{hx("r"), rk.tv}, {hx("n"), n}})
+					c.Do(Case{Q: "$.r." + fn + "(" + h + ")", D: d, Cls: "huge-counts/" + rk.name, InDomain: true})
+					if hi%2 == 0 {
+						c.Do(Case{Q: "$.r." + fn + "($.n)", D: d, Cls: "huge-counts/" + rk.name + "/path", InDomain: true})
+						c.Do(Case{Q: "$.r." + fn + "(" + h + "," + h + ")", D: d, Cls: "huge-counts/" + rk.name, InDomain: true})
+					}
+				}
 			}
 		}
 	}
